@@ -916,6 +916,12 @@ func checkCLI(c Case) error {
 		return nil
 	}
 	re := `^([^\t]*)\t?([^\t]*)\t?(?P<k>[^\t]*)\t?([^\t]*)`
+	if len(lines.String())%2 == 1 {
+		// the same captures with groups that take no part in the match when a line has fewer fields
+		// (they read as empty, like the matched-but-empty groups of the other form)
+		re = `^([^\t]*)(?:\t([^\t]*))?(?:\t(?P<k>[^\t]*))?(?:\t([^\t]*))?`
+		c.Obs.Label(true, "cli:filter-optional-groups")
+	}
 	args := append(append([]string{}, global...), "filter", "-m", re, "-e", tmpl)
 	stderr, code, err := runCLI(bin, args, lines.String())
 	if err != nil {
@@ -935,7 +941,7 @@ func TestCLI(t *testing.T) {
 	}
 	sp := specGrammar
 	sp.Name = "cli"
-	sp.Rule = "grammar and mutation cases (1:1) that pass the library oracle are replayed through the built rare binary: `rare [--noload --color|--nocolor --nounicode --noformat] expression [--no-optimize] -d .. -k .. TEMPLATE` with the first context and `rare filter -m <4 TAB-separated fields, one named k> -e TEMPLATE` over one line per context; oracle: the process exits by itself and prints no Go panic / fatal-error trace (exit status is not asserted). before each tool run the library oracle is run on the very match data the tool will build (its group numbering and special keys); tool runs whose library run was clamped, and templates/data that cannot be passed as argv (NUL, leading '-', commas in -d/-k), are left out and counted"
+	sp.Rule = "grammar and mutation cases (1:1) that pass the library oracle are replayed through the built rare binary: `rare [--noload --color|--nocolor --nounicode --noformat] expression [--no-optimize] -d .. -k .. TEMPLATE` with the first context and `rare filter -m <4 TAB-separated fields, one named k; in half of the runs as optional groups that take no part in the match of a shorter line> -e TEMPLATE` over one line per context; oracle: the process exits by itself and prints no Go panic / fatal-error trace (exit status is not asserted). before each tool run the library oracle is run on the very match data the tool will build (its group numbering and special keys); tool runs whose library run was clamped, and templates/data that cannot be passed as argv (NUL, leading '-', commas in -d/-k), are left out and counted"
 	sp.Budget = pbt.Budget{Quick: 2400, Thorough: 40000}
 	sp.Watchdog = 300 * time.Second
 	sp.Gen = func(t *rapid.T) Case {
